@@ -104,6 +104,7 @@ func BaseStore(id *m.Address) config.Store {
 
 // New builds a node (not started).
 func New(name string, id *m.Address, store config.Store, opts Options) (*Node, error) {
+	CaptureStderr()
 	store.System.DisableTun = !opts.Tun
 	store.System.DisableChromiumWorkaround = true
 	cfg, err := parseConfig(store)
